@@ -9,7 +9,11 @@ tie    : T  Gen/HdrTables.v (protected header names, the regular expression text
          C  extracted model (build/modelrun_hdr) vs the real Variable.Get/Set/Add/Unset (implrun hdr) in every
             scope where req / bereq / beresp / obj / resp are writable, reply by reply; and the three functions
             of field.go against the model's scanner on arbitrary subjects (implrun hdrfield).
-oracle : the store laws evaluated directly on the implementation's replies (no model involved).
+         C  several objects of one request (implrun hdrmulti): a real interpreter builds req / bereq (createBackendRequest) /
+            beresp / obj / resp; operations interleaved over the objects of a scope, scopes walked along the state machine,
+            response objects rebuilt by Clone; against one store per object (Model/HdrMulti.v, C17_set_other_object_frame).
+oracle : the store laws evaluated directly on the implementation's replies (no model involved), including
+         "an operation on one object changes no read of any other object".
 """
 import itertools
 import os
@@ -68,6 +72,7 @@ def run(ctx):
         "extraction: ExtrOcamlBasic only; OCaml 4.13.1; ocaml/common.ml + ocaml/hdr_main.ml (line protocol glue)",
         "translator harness/cmd/trans/hdr_tables.go (protectedHeaders keys, field.go pattern constant, setField quoting class -> Gen/HdrTables.v)",
         "harness/cmd/implrun/hdr.go (builds a context with req/bereq/beresp/obj/resp, calls Variable.Get/Set/Add/Unset, prints N / S<hex> / ok / err)",
+        "harness hdrmulti: interpreter.TestProcessInit + VerifStoreContext (hook interpreter/verif_store.go) to obtain the objects the simulator builds",
         "modelled not verified: Model/HdrField.v is a hand transcription of the regular expression of field.go as a scanner "
         "(ASCII case folding; Go's leftmost-first priorities), Model/Hdr.v of net/http Header + textproto canonical names + header.go; "
         "both tied by the differential runs below",
@@ -188,6 +193,70 @@ def run(ctx):
                                   dict(rep, law=msg, impl=a[:2000]),
                                   {"kind": kind} if kind else None)
 
+    # ------------------------------------------------------------ several objects of one request
+    # built by the real interpreter (TestProcessInit: bereq from req through createBackendRequest, beresp fresh,
+    # resp / obj cloned), operations interleaved over the objects of a scope, scopes walked along the state machine,
+    # response objects rebuilt by Response.Clone on the way; every mutating step followed by the reads of every
+    # object of the scope.  Model: one store per object (Model/HdrMulti.v).
+    implm = [os.path.join(V.BUILD, "implrun"), "hdrmulti"]
+    multi = []      # (pre, ops, label)
+    pre_variants = [[], [("s", "req.Foo", b"")], [("s", "req.fOO", b"x")]]
+    for sc in G.MULTI_SCOPES:
+        small = G.multi_small_ops(sc)
+        rd = G.multi_reads(sc, names=[("Foo", "fOO")])
+        for pre in pre_variants:
+            for o in small:
+                multi.append((pre, [("@", sc)] + rd + [o] + rd, "mexh1"))
+            for a, b in itertools.product(small, repeat=2):
+                if a[1].split(".")[0] == b[1].split(".")[0] and pre:
+                    continue        # same object twice: covered by the single-object histories
+                multi.append((pre, [("@", sc)] + rd + [a] + rd + [b] + rd, "mexh2"))
+    n_mexh = len(multi)
+    mexh3 = 0
+    if thorough:
+        for sc in ("MISS", "DELIVER", "HIT"):
+            small = [o for o in G.multi_small_ops(sc) if o[0] != "a" and not (o[0] == "s" and ":" in o[1] and o[2] is None)]
+            rd = G.multi_reads(sc, names=[("Foo", "fOO")])
+            for t in itertools.product(small, repeat=3):
+                if len(set(x[1].split(".")[0] for x in t)) < 2:
+                    continue
+                multi.append(([], [("@", sc)] + rd + [t[0]] + rd + [t[1]] + rd + [t[2]] + rd, "mexh3"))
+                mexh3 += 1
+    for i in range(40000 if thorough else 1800):
+        pre, ops = G.multi_history(rng)
+        multi.append((pre, ops, "mrandom"))
+    mw = ["%s | %s" % (G.mwire(pre), G.mwire(ops)) for pre, ops, _ in multi]
+    mi = V.run_batch(implm, mw, hang_s=10)
+    mm = V.run_batch([model], ["hdrmulti " + w for w in mw], hang_s=30)
+    magree = 0
+    moracle = 0
+    for (pre, ops, label), w, a, b in zip(multi, mw, mi, mm):
+        evaluations += 1
+        labels[label] = labels.get(label, 0) + 1
+        distinct.add(w)
+        rep = {"history": w[:4000], "label": label, "objects": "req, bereq (createBackendRequest), beresp, obj, resp (TestProcessInit)"}
+        if a is None or a.startswith(("crash", "died", "hang", "skipped", "initerr", "badreq")):
+            ctx.violation("header operations on several objects: %s (%s)" % ((a or "no reply")[:100], label), dict(rep, impl=a))
+            continue
+        if b is None or b.startswith(("badreq", "died", "hang")) or "unmodelled" in b:
+            if b is not None and "unmodelled" in b:
+                continue
+            ctx.violation("model driver failed on a multi-object history: %s" % (b or "no reply")[:100], dict(rep, model=b))
+            continue
+        A = a.split()
+        if a != b:
+            B = b.split()
+            j = next((k for k, (x, y) in enumerate(zip(A, B)) if x != y), min(len(A), len(B)))
+            seq = [G.mwire([o]) for o in pre] + ["|"] + [G.mwire([o]) for o in ops]
+            ctx.violation("several objects of one request: implementation and Model/HdrMulti.v disagree at reply %d (%s): implementation %s, model %s"
+                          % (j, seq[j] if j < len(seq) else "-", A[j] if j < len(A) else "-", B[j] if j < len(B) else "-"),
+                          dict(rep, prefix=";".join(seq[: j + 1])[-1500:], impl=a[:2000], model=b[:2000]))
+        else:
+            magree += 1
+        moracle += 1
+        for msg in G.oracle_multi(pre, ops, A)[:2]:
+            ctx.violation("store law broken on the implementation (objects of one request): " + msg, dict(rep, law=msg, impl=a[:2000]))
+
     # ------------------------------------------------------------ field.go functions vs the scanner
     freqs = []
     for n in range(0, 7 if thorough else 6):         # exhaustive: every subject of length <= n over 6 bytes
@@ -243,6 +312,11 @@ def run(ctx):
                              "mutating_ops": n_small, "histories_len_le_2": n_exh, "complete": True,
                              "len3_reduced_alphabet": exh3, "len3_4_sampled": n_s34},
         "oracle_histories": oracle_checked, "oracle_violations": oracle_viol,
+        "multi_object": {"histories": len(multi), "agree": magree, "oracle_checked": moracle,
+                         "exhaustive_len_le_2": n_mexh, "exhaustive_len_3_two_objects": mexh3,
+                         "alphabet": "per scope with two or three writable objects: 2 spellings of one name, values x / empty / not set, key a, "
+                                     "set/add/unset whole and sub-field on every object, with and without a header set on req before bereq is built",
+                         "scopes": G.MULTI_SCOPES},
         "reply_kinds": outcomes,
         "field_calls": len(freqs), "field_calls_exhaustive": n_exh_field, "field_calls_agree": fagree,
         "value_focus": "embedded ,key= inside quotes, trailing backslash, quote-wrapped tokens, LF, blanks around separators, non-ASCII",
